@@ -66,6 +66,9 @@ pub trait PairEst: Clone + std::fmt::Debug + Default {
     fn extend_ref(&mut self, v: &[(f64, f64)]);
     fn from_iter_lazy(v: &[(f64, f64)]) -> Self;
     fn extend_lazy(&mut self, v: &[(f64, f64)]);
+    fn extend_short_hint(&mut self, v: &[(f64, f64)]);
+    fn from_iter_short_hint(v: &[(f64, f64)]) -> Self;
+    fn extend_failing(&mut self, v: &[(f64, f64)], h: usize);
     fn roundtrip_json(&self) -> Option<Self>;
     fn roundtrip_bin(&self) -> Option<Self>;
 }
@@ -81,6 +84,17 @@ macro_rules! pair_ingest {
         fn extend_ref(&mut self, v: &[(f64, f64)]) { self.extend(v.iter()) }
         fn from_iter_lazy(v: &[(f64, f64)]) -> Self { v.iter().filter(|_| true).collect() }
         fn extend_lazy(&mut self, v: &[(f64, f64)]) { self.extend(v.iter().cloned().filter(|_| true)) }
+        fn extend_short_hint(&mut self, v: &[(f64, f64)]) {
+            struct Short<'a>(std::slice::Iter<'a, (f64, f64)>, usize);
+            impl<'a> Iterator for Short<'a> { type Item = (f64, f64); fn next(&mut self) -> Option<(f64, f64)> { self.0.next().cloned() } fn size_hint(&self) -> (usize, Option<usize>) { (self.1, Some(self.1)) } }
+            self.extend(Short(v.iter(), v.len() / 2));
+            }
+        fn from_iter_short_hint(v: &[(f64, f64)]) -> Self {
+            struct ShortR<'a>(std::slice::Iter<'a, (f64, f64)>, usize);
+            impl<'a> Iterator for ShortR<'a> { type Item = &'a (f64, f64); fn next(&mut self) -> Option<&'a (f64, f64)> { self.0.next() } fn size_hint(&self) -> (usize, Option<usize>) { (self.1, Some(self.1)) } }
+            ShortR(v.iter(), v.len() / 3).collect()
+        }
+        fn extend_failing(&mut self, v: &[(f64, f64)], h: usize) { let mut i = 0; self.extend(std::iter::from_fn(|| { if i == h { panic!("source failed") } let x = v[i]; i += 1; Some(x) })) }
     };
 }
 
@@ -133,8 +147,16 @@ impl PairEst for Covariance {
 /// the pair version of `common::feed_any`
 pub fn pfeed_any<E: PairEst>(out: &mut Out, e: &mut E, xs: &[(f64, f64)], rng: &mut Rng) {
     let n = xs.len();
-    let route = rng.below(8);
+    let route = rng.below(11);
     let h = if n > 1 { rng.below(n) } else { 0 };
+    if route == 8 {
+        let r = std::panic::catch_unwind(std::panic::AssertUnwindSafe(|| e.extend_failing(xs, h)));
+        out.x(r.is_err(), || "a panic inside the iterator handed to extend was swallowed".to_string());
+        for (a, b) in &xs[h..] { e.add(*a, *b) }
+        return;
+    }
+    if route == 9 { e.extend_short_hint(&xs[..h]); for (a, b) in &xs[h..] { e.add(*a, *b) } return; }
+    if route == 10 { let mut f = E::from_iter_short_hint(&xs[..h]); std::mem::swap(e, &mut f); e.merge(&f); let _ = f; for (a, b) in &xs[h..] { e.add(*a, *b) } return; }
     let ident = |out: &mut Out, e: &mut E, which: usize| {
         let before = words(e);
         let copy = match which % 4 {
